@@ -447,7 +447,7 @@ def run(ctx):
                     'g++ 12 -std=c++17; harness reaches private members via #define private public; read traces via logging functors / hash iterator']
     ctx.assumptions += ['count < 2^62 (size_t index arithmetic does not wrap)', 'hash codes are 64-bit (x86-64 size_t)',
                         'equalFunc is an equivalence relation; equal items have equal hash codes',
-                        'the radix path of Sort (> 2^(R/2+1) items) is proved only as far as partial correctness of permutation: totality/sortedness there are validated output (verified checker, oracles) + swap-trace tie']
+                        'Sort is proved about the hand model SorterSort.v (array = list of (code,item) pairs, hashFunc deterministic), tied to the real code by swap trace + final arrangement']
     ctx.regen(GEN)
     ctx.prove()
     exes = ctx.cxx_many([('harness.cpp', 'harness', []),
